@@ -224,4 +224,10 @@ def run(rep, db, tier, seed):
     if tier == 'thorough':
         from props import kani_part
         kani_part.run(rep, PROP, tier)
+    # the per-connection consequence: one limiter permit per OPEN of a transient stream, held until the stream is handed over
+    try:
+        from props import c14_reusable
+        c14_reusable.run(rep, db, tier)
+    except Exception as u:
+        rep.add(Obligation('ReusableStream::run', 'inconclusive', f'{type(u).__name__}: {u}'[:600]))
     rep.extra['explanation'] = 'inductive step lemmas of the token bucket on the real MIR (advance, drop, acquire coroutine) for all symbolic states; window bound by telescoping (assumption) and by a bounded Kani run (thorough)'
